@@ -118,8 +118,12 @@ func runOp(r *bufiox.DefaultReader, op Op) string {
 				k = 0
 			}
 			return fmt.Sprintf("rb %d %s %s", m, lib.Hex(bs[:k]), lib.ErrStr(err))
-		case "release":
-			if err := r.Release(nil); err != nil {
+		case "release", "releasee":
+			var e error
+			if op.Kind == "releasee" { // Release(e) with a non-nil error value: must behave like Release(nil)
+				e = lib.InjErr(op.N)
+			}
+			if err := r.Release(e); err != nil {
 				return "err " + lib.ErrStr(err)
 			}
 			return "ok"
@@ -134,6 +138,8 @@ func opFields(op Op) []string {
 	switch op.Kind {
 	case "release", "len":
 		return []string{"rd", op.Kind}
+	case "releasee":
+		return []string{"rd", "release", "e" + strconv.Itoa(op.N)}
 	}
 	return []string{"rd", op.Kind, strconv.Itoa(op.N)}
 }
@@ -211,7 +217,7 @@ func runHist(h *Hist, tag string, r *bufiox.DefaultReader, from, upto int, count
 		res := runOp(r, op)
 		if count {
 			em.Count("op:" + op.Kind)
-			if op.Kind != "release" && op.Kind != "len" {
+			if op.Kind != "release" && op.Kind != "releasee" && op.Kind != "len" {
 				em.Count("n:" + sizeClass(op.N))
 			}
 			em.Count("res:" + op.Kind + ":" + firstTok(res))
@@ -374,7 +380,7 @@ func alphabet(sizes []int) []Op {
 			a = append(a, Op{k, n})
 		}
 	}
-	return append(a, Op{"release", 0}, Op{"len", 0})
+	return append(a, Op{"release", 0}, Op{"releasee", 0}, Op{"len", 0})
 }
 
 func exhaustive(out []Hist, class string, proto Hist, alpha []Op, depth int, tail []Op) []Hist {
@@ -456,8 +462,10 @@ func randomOps(r *lib.Rng, L int, nops int) []Op {
 			} else {
 				pos = L
 			}
-		case k < 85:
+		case k < 81:
 			ops = append(ops, Op{"release", 0})
+		case k < 85:
+			ops = append(ops, Op{"releasee", r.Pick(0, 0, 1, 3)})
 		case k < 97:
 			ops = append(ops, Op{"len", 0})
 		default:
@@ -511,7 +519,7 @@ func genAll(o *lib.Opts) []Hist {
 		out = exhaustive(out, "exh3:"+st, p, red, 3, tail)
 	}
 	if thorough { // depth 4 on a tiny alphabet around one buffer boundary
-		tiny := []Op{{"next", 4095}, {"peek", 4097}, {"rb", 2}, {"skip", 1}, {"release", 0}, {"rb", 8192}}
+		tiny := []Op{{"next", 4095}, {"peek", 4097}, {"rb", 2}, {"skip", 1}, {"releasee", 3}, {"rb", 8192}}
 		p := Hist{Stream: content(14000, salt+3), Salt: int64(salt + 3), Script: styleScript(r, "boundary", 14000)}
 		out = exhaustive(out, "exh4:boundary", p, tiny, 4, tail)
 		p = Hist{Stream: content(14000, salt+3), Salt: int64(salt + 3), Script: styleScript(r, "data+eof", 14000)}
@@ -600,6 +608,23 @@ func genAll(o *lib.Opts) []Hist {
 		case k < 6:
 			fit(func(L int) lib.Script { return steadyScript(r, L) })
 			h.Class = "random-steady"
+		case k < 7 && r.Chance(1, 2): // chunked, final data together with the error, stream fits the first buffer
+			if L > 4096 {
+				L = r.Range(0, 4096)
+				h.Stream = h.Stream[:L]
+			}
+			var sc lib.Script
+			for left := L; left > 0; {
+				k := r.Pick(1, 2, 7, 64, 700, 4096)
+				if k >= left {
+					sc = append(sc, lib.Resp{K: k, Err: r.Pick(-1, 0, 0, 3)})
+					break
+				}
+				sc = append(sc, lib.Resp{K: k, Err: -1})
+				left -= k
+			}
+			h.Script = sc
+			h.Class = "random-chunks"
 		case k < 7:
 			st := []string{"fits", "boundary", "data+eof", "one+eof", "mid-err", "zeros99", "zeros100", "cut", "small", "4096", "empty"}
 			style := st[r.Intn(len(st))]
@@ -642,7 +667,13 @@ func parseOpFields(f []string) (Op, bool) {
 		return Op{}, false
 	}
 	switch f[1] {
-	case "release", "len":
+	case "release":
+		if len(f) == 3 && strings.HasPrefix(f[2], "e") {
+			k, err := strconv.Atoi(f[2][1:])
+			return Op{"releasee", k}, err == nil
+		}
+		return Op{f[1], 0}, len(f) == 2
+	case "len":
 		return Op{f[1], 0}, len(f) == 2
 	case "next", "peek", "skip", "rb":
 		if len(f) != 3 {
